@@ -450,30 +450,6 @@ fn sdk_model_reads_the_same_flags_and_caps() {
     std::mem::forget(sdk);
 }
 
-//@ prop=C16 tier=quick kind=hold
-//@ enc=impl SwapMarket/PositionImpactMarket/BorrowingFeeMarket/PerpMarket for gmsol_programs::model::MarketModel (crates/programs/src/model/market.rs) vs the program Market impls, on the same words
-//@ bound=none: arbitrary market account image, key codes 0..32
-#[kani::proof]
-fn c16_sdk_model_keys_00_31() {
-    sdk_model_reads_what_the_program_reads(0, 32)
-}
-
-//@ prop=C16 tier=quick kind=hold
-//@ enc=impl BaseMarket/BorrowingFeeMarket/PerpMarket for gmsol_programs::model::MarketModel vs the program Market impls (incl. the closed-market parameter switch), on the same words
-//@ bound=none: arbitrary market account image, key codes 32 and above (every remaining u16 code)
-#[kani::proof]
-fn c16_sdk_model_keys_32_up() {
-    sdk_model_reads_what_the_program_reads(32, u16::MAX)
-}
-
-//@ prop=C16 tier=quick kind=hold
-//@ enc=LiquidityMarket::max_pool_value_for_deposit, BorrowingFeeMarket::borrowing_fee_params (skip flag), BaseMarket::ignore_open_interest_for_usage_factor, MarketModel::is_pure for the SDK model vs the program Market
-//@ bound=none: arbitrary market account image
-#[kani::proof]
-fn c16_sdk_model_flags_and_caps() {
-    sdk_model_reads_the_same_flags_and_caps()
-}
-
 //@ prop=C40 tier=quick kind=hold
 //@ enc=impl SwapMarket/PositionImpactMarket/BorrowingFeeMarket/PerpMarket for gmsol_programs::model::MarketModel vs the program Market impls, on the same words; size_of equality of the two layouts
 //@ bound=none: arbitrary market account image, key codes 0..32
